@@ -65,6 +65,7 @@ type Program struct {
 type Config struct {
 	MaxTokens  int // soft budget
 	MaxStmts   int // top-level statements
+	MinStmts   int // at least this many top-level statements (0: no lower bound), token budget permitting
 	MaxDepth   int // expression depth
 	MaxNest    int // statement nesting
 	Comments   bool
@@ -967,6 +968,9 @@ func (e *emitter) templateLit() string {
 func Generate(ch *kernel.Chooser, cfg Config) *Program {
 	e := &emitter{ch: ch, cfg: cfg, curStmt: -1, feat: map[string]int{}}
 	n := 1 + ch.Choose(cfg.MaxStmts)
+	if n < cfg.MinStmts {
+		n = cfg.MinStmts
+	}
 	if cfg.DeepNest > 0 {
 		e.deepChain(-1, 0)
 	} else {
